@@ -250,6 +250,10 @@ def _mk_result(est_id: str, gt_id: Optional[str], ok: bool, slot: int, est_lab: 
     return DynamicObjectWithPerceptionResult(est, gt, MatchingLabelPolicy[policy])
 
 
+DIGIT_NAMES = [a for n in (1, 2, 3, 4) for a in ("".join(t) for t in itertools.product("12", repeat=n))]  # 30 names
+DIGIT_NAMES_REV = [a for n in (1, 2, 3, 4) for a in reversed(["".join(t) for t in itertools.product("12", repeat=n)])]
+
+
 def frame_options() -> List[List[Tuple[str, Optional[str], bool]]]:
     per_est: List[Optional[Tuple[Optional[str], bool]]] = [None, (None, False)] + [(g, ok) for g in ("1", "2") for ok in (True, False)]
     frames = []
@@ -393,7 +397,13 @@ def random_histories(ctx: Ctx, n: int) -> None:
             if key is None:
                 return None
             if key not in tbl:
-                tbl[key] = f"{prefix}{len(tbl) * 7 + 3}"
+                if idx % 2 == 0:
+                    tbl[key] = f"{prefix}{len(tbl) * 7 + 3}"
+                else:
+                    # bare decimal counters of varying length: different (estimate id, ground-truth id) pairs whose
+                    # concatenations read the same ("1"+"12" and "11"+"2") are still different pairings
+                    seq = DIGIT_NAMES if prefix == "x" else DIGIT_NAMES_REV
+                    tbl[key] = seq[len(tbl)] if len(tbl) < len(seq) else f"3{len(tbl)}"
             return tbl[key]
 
         objs2 = ([[]] if history else []) + [[mk_result(rn(ren_e, s["e"], "x"), rn(ren_g, s["g"], "y"), s["ok"], slot=i, est_lab=s["el"], gt_lab=s["gl"], jitter=0.001 * (k % 7), policy=policy) for i, s in enumerate(fr)] for k, fr in enumerate(specs)]
